@@ -3,6 +3,9 @@
 # later per-check rebuilds hit the Go build cache. Every check still rebuilds from /repo's tree.
 set -eu
 export GOFLAGS=-mod=mod GOPROXY=off GOSUMDB=off GOTOOLCHAIN=local
+# github.com/99designs/keyring probes the D-Bus session bus in a package init(); without an address godbus
+# autolaunches dbus-launch, which leaves one dbus-daemon behind per process start (pid exhaustion).
+export DBUS_SESSION_BUS_ADDRESS="${DBUS_SESSION_BUS_ADDRESS:-unix:path=/nonexistent}"
 cd "$(dirname "$0")"
 H="$(pwd)"
 mkdir -p .build/bin evidence replays
